@@ -296,7 +296,7 @@ func shrinkSetValues(values []string, key string, o *object.Object, now int64) [
 		if !f.Value().IsZero() {
 			values = append(values, "field")
 			values = append(values, f.Name())
-			values = append(values, f.Value().JSON())
+			values = append(values, shrinkFieldValue(f.Value()))
 		}
 		return true
 	})
@@ -363,4 +363,35 @@ func shrinkHookCommand(hook *Hook) []string {
 	out := append([]string{}, args[:i]...)
 	out = append(out, "object", string(hook.Fence.getObj.AppendJSON(nil)))
 	return append(out, args[i+3:]...)
+}
+
+// shrinkFieldValue returns the text that recreates a field value. A string is
+// written as a JSON string so that it stays a string ("123", "true"), but with
+// its bytes as they are: the usual JSON quoting replaces bytes that are not
+// valid UTF-8, and the value would come back changed.
+func shrinkFieldValue(v field.Value) string {
+	if v.Kind() != field.String {
+		return v.JSON()
+	}
+	data := v.Data()
+	buf := make([]byte, 0, len(data)+2)
+	buf = append(buf, '"')
+	for i := 0; i < len(data); i++ {
+		switch c := data[i]; {
+		case c == '"' || c == '\\':
+			buf = append(buf, '\\', c)
+		case c == '\n':
+			buf = append(buf, '\\', 'n')
+		case c == '\r':
+			buf = append(buf, '\\', 'r')
+		case c == '\t':
+			buf = append(buf, '\\', 't')
+		case c < ' ':
+			const hex = "0123456789abcdef"
+			buf = append(buf, '\\', 'u', '0', '0', hex[c>>4], hex[c&15])
+		default:
+			buf = append(buf, c)
+		}
+	}
+	return string(append(buf, '"'))
 }
